@@ -3,6 +3,7 @@ import WR.C04.Model
 import WR.Gen.C04Tables
 import WR.C04.RefTable
 import WR.C04.Lengths
+import WR.C04.Spec
 open WR WR.Sexp WR.C04
 
 namespace Driver.C04
@@ -110,6 +111,10 @@ def handle (req : Sexp) : Sexp :=
           some (putLVF 64 (computeLengths c (← getLVF 64 v)))
         | _ => none
       some (ok outs)
+    -- §9.7: (display blockify outer inner listitem)
+    | .list [.atom "display", b, .str o, .str i, .str l] => do
+      let d := specDisplay (← b.asBool?) (o, i, l)
+      some (ok [.str d.1, .str d.2.1, .str d.2.2])
     | .list [.atom "nb"] => some (ok [ofNat WR.Gen.C04Tables.nbProperties])
     | _ => none
   r.getD (Sexp.err "c04: unknown or malformed request")
